@@ -223,9 +223,42 @@ example : replacer (CssVerif.Proto.cps "css/a.css") (CssVerif.Proto.cps "../img/
 example : urljoin (CssVerif.Proto.cps "http://h/base/main.css") (CssVerif.Proto.cps "img/x.png?v=2#f")
     = urljoin (CssVerif.Proto.cps "http://h/base/css/a.css") (CssVerif.Proto.cps "../img/x.png?v=2#f") := by decide
 
-/-! ### T19.2, strings [W2, partial]: the string functions of the model are the segment functions on joined paths.
-Not proved: the composition through `urlsplit`/`urlunsplit`/`posixpath.split`/`join` for arbitrary strings (those
-are tied to CPython by the correspondence only). -/
+/-! ### T19.2, strings [W2, partial]: the string functions of the model are the segment functions.
+`Replacer` is closed at the string level for paths made of simple segments (`replacer_on_strings`); for `urljoin` the
+string level rests on the correspondence with CPython (its path algebra is `rdsSegs`, used above). -/
+
+/-- `Replacer(href)(url)` as strings: for an @import href `D/g` and a URL `U/f` whose segments consist of unreserved
+characters and `%` (`.`/`..` allowed inside, `f` a name), the result is the `/`-join of `normComps (D ++ U ++ [f])`:
+through `urlsplit`, `posixpath.split`, `join`, `normpath`, `quote` and `urlunsplit` nothing else happens -/
+theorem replacer_on_strings (D U : List Str) (g f : Str) (hD : ∀ s ∈ D, SimpleSeg s) (hU : ∀ s ∈ U, SimpleSeg s)
+    (hg : SimpleSeg g) (hf : SimpleSeg f) (hfn : Normal f) :
+    replacer (joinWith cSlash (D ++ [g])) (joinWith cSlash (U ++ [f]))
+      = .ok (joinWith cSlash (normComps false (D ++ U ++ [f]))) :=
+  replacer_on_segments D U g f hD hU hg hf hfn
+
+/-- … which resolves, by `rebased_url_resolves_identically_partial`, to what the original URL resolved to -/
+theorem replacer_on_strings_resolves (T D U : List Str) (g f : Str) (hD : ∀ s ∈ D, SimpleSeg s)
+    (hU : ∀ s ∈ U, SimpleSeg s) (hg : SimpleSeg g) (hgn : Normal g) (hf : SimpleSeg f) (hfn : Normal f) :
+    ∃ r, replacer (joinWith cSlash (D ++ [g])) (joinWith cSlash (U ++ [f])) = .ok r ∧
+      rdsSegs (T ++ splitOn cSlash r) = rdsSegs ((rdsSegs (T ++ D ++ [g])).dropLast ++ (U ++ [f])) := by
+  refine ⟨_, replacer_on_strings D U g f hD hU hg hf hfn, ?_⟩
+  have hall : ∀ s ∈ D ++ U ++ [f], SimpleSeg s := by
+    intro s hs
+    rcases List.mem_append.mp hs with h | h
+    · rcases List.mem_append.mp h with h | h
+      · exact hD s h
+      · exact hU s h
+    · simp at h; subst h; exact hf
+  have hlast := normComps_getLast false (D ++ U) f hfn
+  have hne : normComps false (D ++ U ++ [f]) ≠ [] := by
+    intro e; rw [e] at hlast; simp at hlast
+  rw [splitOn_joinWith cSlash _ hne
+    (fun s hs => simple_noSlash s (hall s (normComps_subset false _ s hs)))]
+  exact rebased_url_resolves_identically_partial T D U g f (fun c hc => (hD c hc).1) (fun c hc => (hU c hc).1) hgn hfn
+
+example : SimpleSeg (CssVerif.Proto.cps "x%41.png") := by
+  refine ⟨by decide, ?_⟩
+  decide
 
 /-- `'/'.join(parts).split('/') == parts` -/
 theorem split_join (cs : List Str) (h : cs ≠ []) (h0 : ∀ s ∈ cs, cSlash ∉ s) :
